@@ -20,7 +20,7 @@ func TestTimeRIS(t *testing.T) {
 			for i := w; i < 150; i += 4 {
 				c := genRIS(rand.New(rand.NewPCG(1, uint64(i))))
 				st := &seqStats{byOp: map[string]int{}}
-				runRIS(c, fmt.Sprint(i), st, func(cl string, f map[string]string, d string) { t.Log(cl, f, d) })
+				if w := runRIS(c, fmt.Sprint(i), st, func(cl string, f map[string]string, d string) { t.Log(cl, f, d) }); w != "" { t.Log(i, w, c.Ops) }
 			}
 		}(w)
 	}
